@@ -160,3 +160,19 @@ package polynomial
 //@ ensures[result] result == p
 //@ modifies p, *p
 //@ end
+
+// Evaluate folds a copy of the bookkeeping table: the caller's table is left unchanged, with or without a pool
+// (the pool is an opaque object here; a table shorter than 2^len(coordinates) makes the code index an empty table:
+// panics are outside this contract). The value itself (the multilinear extension at the point) is not stated.
+//@ func MultiLin.Evaluate
+//@ layer ring fr.Element
+//@ option panics-allowed
+//@ option index-panics-allowed
+//@ option opaque-calls
+//@ option inline-callees _clone Clone Fold
+//@ nullable p
+//@ loop 0
+//@ + invariant[input] forall(j, 0, len(m), m[j] == old(m[j]))
+//@ ensures[input] forall(j, 0, len(m), m[j] == old(m[j]))
+//@ modifies nothing
+//@ end
